@@ -611,6 +611,8 @@ def main(argv):
     # =================================================================================================
     # 1. escapeStr / Bytes(str)
     # =================================================================================================
+    sur_bad = [0]
+
     def compare_escape(strings, label, with_line):
         utf = []
         keep = []
@@ -622,9 +624,15 @@ def main(argv):
                 r = call_real(pt.Bytes, s)
                 tally("surrogate")
                 # documented rejection (after /repo a9485d9): a str without UTF-8 encoding is a TealInputError
+                if r[0] != "ok" and r[1] == "TealInputError":
+                    continue
+                sur_bad[0] += 1
+                if sur_bad[0] > 6:       # report the first few, count the rest
+                    continue
                 if r[0] == "ok":
-                    ck.violation("Bytes(str with a lone surrogate) is accepted although the string has no UTF-8 encoding",
-                                 {"kind": "surrogate-accepted", "literal": lit_json(("utf8", s))})
+                    line = real_line(pt.Bytes, s)
+                    ck.violation("Bytes(%s) - a str with a lone surrogate, which has no UTF-8 encoding - is accepted and emitted as %r: the program pushes bytes that are not the UTF-8 encoding of any text" % (ascii(s), line[1]),
+                                 {"kind": "surrogate-accepted", "literal": lit_json(("utf8", s)), "emitted": line[1]})
                 elif r[1] != "TealInputError":
                     ck.violation("Bytes(%s) - a str with a lone surrogate, which has no UTF-8 encoding - is not rejected with a PyTeal error: the constructor raises %s" % (ascii(s), r[1]),
                                  {"kind": "surrogate-error-class", "literal": lit_json(("utf8", s)), "observed": list(r[:2]), "expected": "TealInputError"})
@@ -655,7 +663,19 @@ def main(argv):
     ck.coverage["exhaustive_domain"] = "all 65,792 strings of one or two code points below 256 (escapeStr); all strings over 7-8 letter alphabets up to length %d (validators)" % (6 if thorough else 5)
     cps = codepoint_sample(rng, thorough)
     compare_escape([chr(c) for c in cps], "codepoints", False)
-    compare_escape(["\ud800", "a\udfffb", "\udc00\ud800", "x" * 50 + "\udbff", "\U0010ffff"], "surrogates", False)
+    # str values without a UTF-8 encoding must be rejected with TealInputError: every lone surrogate alone, the range
+    # boundaries (incl. U+DC80..U+DCFF, what errors="surrogateescape" produces) at the start / middle / end of ASCII and
+    # non-ASCII text, pairs in the wrong order, and a "proper" pair kept by Python as two lone surrogates
+    sur = [chr(c) for c in range(0xD800, 0xE000)]
+    for c in (0xD800, 0xD83D, 0xDBFF, 0xDC00, 0xDC7F, 0xDC80, 0xDCE9, 0xDCFF, 0xDE00, 0xDFFF):
+        for ctx in ("abc", "caf\u00e9", "\U0001f600\u2028", 'q"\\\n;//'):
+            sur += [chr(c) + ctx, ctx + chr(c), ctx[:1] + chr(c) + ctx[1:], ctx + chr(c) + ctx]
+    sur += [chr(lo) + chr(hi) for lo in (0xDC00, 0xDC80, 0xDCE9, 0xDFFF) for hi in (0xD800, 0xD83D, 0xDBFF)]
+    sur += [chr(0xD83D) + chr(0xDE00), chr(0xD800) + chr(0xDC00), chr(0xDBFF) + chr(0xDFFF), "a" + chr(0xD83D) + chr(0xDE00) + "b",
+            chr(0xDCE9) * 3, "x" * 50 + "\udbff", "caf" + chr(0xDCE9)]
+    sur += ["".join(rng.choice(HAZ) for _ in range(rng.randrange(0, 6))) + chr(rng.randrange(0xD800, 0xE000)) +
+            "".join(rng.choice(HAZ) for _ in range(rng.randrange(0, 6))) for _ in range(2000 if thorough else 300)]
+    compare_escape(sur + ["\U0010ffff", "\ud7ff\ue000"], "surrogates", False)
     rnd = [rand_hazard_string(rng) for _ in range(40000 if thorough else 10000)]
     rnd = compare_escape(rnd, "random-hazard", True)
     for s in rnd[:3]:
@@ -937,6 +957,7 @@ def main(argv):
     ck.coverage["timing_s"] = timing
     ck.coverage["oracle_literals_read_back"] = oracle.checked
     ck.coverage["oracle_by_kind"] = oracle.hist
+    ck.coverage["unencodable_str_not_rejected_with_TealInputError"] = sur_bad[0]
     ck.coverage["oracle_by_compile_flavour"] = oracle.by_mode
     ck.coverage["prevchar_variant_differs_on_lines"] = oracle.prevchar_differs
     ck.coverage["disagreements_checked"] = len(mismatch) + len(fails)
